@@ -39,7 +39,8 @@ REQUIRED_MONITORS = ["F-matches-own-geometry", "DF-matches-own-geometry", "invF-
                      "divergence-theorem-mesh", "affine-equals-isoparametric", "subset-spellings-agree",
                      "facetbasis-normals-dx"]
 REQUIRED_REACH = ["per-cell-layout", "tind-none", "tind-permuted", "tind-repeated", "curved-mesh", "mirrored-mesh",
-                  "interior-facets", "newton-inverse-nontrivial", "affine-flag-flipped", "many-points-per-cell", "same-points-other-subset"]
+                  "interior-facets", "newton-inverse-nontrivial", "affine-flag-flipped", "many-points-per-cell", "same-points-other-subset",
+                  "mesh-in-small-units"]
 
 
 class OwnGeom:
@@ -172,6 +173,24 @@ def cell_maps(ctx, k, kind):
             ctx.check("invF-F-identity", False, mech="newton-inverse-does-not-converge-with-many-points-per-cell",
                       mesh=cname, geom=geom, points=160, error=str(e))
         ctx.reached("many-points-per-cell")
+        # the same mesh in small units (micrometres in metres and below): the inverse is dimensionless and must be as
+        # accurate as at unit scale
+        for e in (-20, -30):
+            mu = replace(mesh, doflocs=np.asarray(mesh.doflocs) * 2.0 ** e)
+            mpu = mu.mapping()
+            Xs = GEO.random_ref_points(rng, kind, 9)
+            cells = np.arange(min(nt, 6))
+            xs = mpu.F(Xs, cells)
+            try:
+                Xb = mpu.invF(xs, cells)
+                ctx.close("invF-F-identity", Xb, np.broadcast_to(Xs[:, None, :], xs.shape), rtol=1e-9, scale=1.0,
+                          mech=f"invF-small-units:{mname}:{kind}", mesh=cname, geom=geom, unit=f"2^{e}")
+            except Exception as ex:
+                if "converge" not in str(ex):
+                    raise
+                ctx.check("invF-F-identity", False, mech="newton-inverse-does-not-converge-in-small-units", mesh=cname,
+                          geom=geom, unit=f"2^{e}", error=str(ex))
+        ctx.reached("mesh-in-small-units")
     # F sends reference nodes to the mesh's nodes
     Xv = GEO.ref_vertices(kind)
     xv = mapping.F(Xv)
